@@ -288,6 +288,8 @@ func runC11(c *Ctx) {
 	}
 	c.Floor(r3, 6, "handler obligations")
 
+	s.checkTrimKeepsNewest(c, "trim-keeps-newest")
+
 	// ------------------------------------------------------------------ (4)
 	r4 := c.Rule("no-bounded-reader", "the stream readers use no bufio.Scanner and no ReadLine (both truncate or fail on very long lines)")
 	for _, rd := range readers {
